@@ -42,6 +42,13 @@ func scenarioC17(r *Run) {
 		}
 	}
 	nbg := c.Pick(3, "background-connections")
+	crowd := false
+	if !CarrierIsDNS(carrier) && !CarrierIsKCP(carrier) && c.Chance(1, 8, "crowd") {
+		// a crowd of neighbours on the same session, most of which finish while the test connection runs
+		nbg = 17 + c.Pick(24, "crowd-size")
+		crowd = true
+		r.Count("runs_with_a_crowd_of_neighbours")
+	}
 
 	w, err := BuildWorld(r, cfg)
 	if err != nil {
@@ -73,9 +80,9 @@ func scenarioC17(r *Run) {
 		} else {
 			na, nt := 1+c.Pick(2000, "bg-app"), 1+c.Pick(2000, "bg-tgt")
 			lc.PlanA, lc.PlanT = Partition(c, na, "bg-part"), Partition(c, nt, "bg-part")
-			if c.Chance(1, 2, "bg-idle") {
+			if !crowd && c.Chance(1, 2, "bg-idle") {
 				lc.Mode = "idle"
-			} else if c.Chance(1, 2, "bg-closes") {
+			} else if crowd || c.Chance(1, 2, "bg-closes") {
 				// a neighbour on the same listener finishes in an orderly way at a moment the driver chooses,
 				// possibly in the middle of the test connection's transfer
 				if c.Chance(1, 2, "bg-closer") {
